@@ -91,3 +91,22 @@ Theorem C08_fill_skip_in_row : forall l1 l2 window0, (1 <= l1)%Z -> (1 <= l2)%Z 
   (S <= row_hi l1 l2 window0 r ri)%Z -> (row_min l1 l2 window0 r ri <= ci < S)%Z ->
   (0 < slot l1 l2 window0 r ri ci < width l1 l2 window0)%Z.
 Proof. exact skip_in_row. Qed.
+
+(* The loops that EXPAND the compact array into a full matrix or a slice of it (dtw_expand_wps_slice and its affinity twin;
+   dtw_expand_wps* call them with the whole matrix): every cell is read at its layout slot, inside its row of the compact
+   array, and written inside the (re-rb) x (ce-cb) output block, for every length, window and slice. *)
+From DV Require Import CExpand.
+From DVGen Require Import Gen_cexpand.
+
+Theorem C08_expand_loops_follow_the_layout : forall l1 l2 window0 rb re cb ce,
+  (1 <= l1)%Z -> (1 <= l2)%Z -> (0 <= window0)%Z -> (0 <= rb < re)%Z -> (re <= l1 + 1)%Z -> (0 <= cb < ce)%Z -> (ce <= l2 + 1)%Z ->
+  forall r, In r expand_regions -> expand_ok l1 l2 window0 rb re cb ce r.
+Proof. exact expand_regions_follow_the_layout. Qed.
+
+Theorem C08_expand_write_index_in_block : forall l1 l2 window0 rb re cb ce,
+  (1 <= l1)%Z -> (1 <= l2)%Z -> (0 <= window0)%Z -> (0 <= rb < re)%Z -> (re <= l1 + 1)%Z -> (0 <= cb < ce)%Z -> (ce <= l2 + 1)%Z ->
+  forall r, In r expand_regions -> forall ri ci,
+  (first_row l1 l2 window0 rb r <= ri < last_row l1 l2 window0 re r)%Z ->
+  (Z.max (cbs cb) (e_min l1 l2 window0 rb ce r ri) <= ci < Z.min (ces ce) (e_hi l1 l2 window0 rb ce r ri))%Z ->
+  (0 <= (ri + 1 - rb) * (ce - cb) + (ci + 1 - cb) < (re - rb) * (ce - cb))%Z.
+Proof. exact expand_write_index_in_block. Qed.
